@@ -6,6 +6,8 @@
 //!   `verify <prog>`                      `verify_idl_definitions` alone (compatibility mode)     → `ok`
 //!   `verify-strict <prog>`               `verify_idl_definitions_strict` + referenced programs   → `ok`
 //!   `count <prog> <n_ix> <n_acct>`       the harness table covers every IDL instruction/account → `ok n n`
+//!   `accrefs <prog>`                     every program_accounts reference resolves (accounts table / referenced IDL) → `ok`
+//!   `sameidl <p> <q>`                    shared items of two programs generated in different orders are identical → `ok`
 //!   `disc <prog> ix|acct <source> <hex>` IDL discriminant (in the op) vs runtime constant (answer) → `ok <hex>`
 //!   `flat <prog> <ix> <progid> <present> <idlset>`   flattened IDL list (model) vs client metas (answer)
 //!   `lower <prog> <ix> <dischex> <idlset>`           Codama lowering of that instruction
@@ -16,7 +18,7 @@
 //!   `vset <name> <id|-> (<vfields>)` / `vflat <name> <id> <progid> <present> <idlset> (<client>)`  multi-variant sets
 //!   `set <name> <setshape>` / `metas <name> <setshape> <progid> <present>`      harness account sets
 use crate::{
-    sets, shipped,
+    reuse, sets, shipped,
     shipped::IxRow,
     shipped_gen as g,
     sx::{self, Sx, Val},
@@ -137,6 +139,40 @@ pub fn programs() -> Vec<Prog> {
             example: false,
         },
         Prog {
+            name: "reuse_a",
+            id: reuse::ReuseA::ID,
+            gen: gen_of::<reuse::ReuseA>,
+            ixs: vec![
+                shipped::ix_row::<reuse::ReuseA, reuse::TouchVault>(),
+                shipped::ix_row::<reuse::ReuseA, reuse::SetLimits>(),
+                shipped::ix_row::<reuse::ReuseA, reuse::TouchBook>(),
+                shipped::ix_row::<reuse::ReuseA, reuse::TouchLimits>(),
+            ],
+            accts: vec![acct::<reuse::Vault>(), acct::<reuse::Limits>(), acct::<reuse::Book>()],
+            example: false,
+        },
+        Prog {
+            name: "reuse_b",
+            id: reuse::ReuseB::ID,
+            gen: gen_of::<reuse::ReuseB>,
+            ixs: vec![
+                shipped::ix_row::<reuse::ReuseB, reuse::TouchLimits>(),
+                shipped::ix_row::<reuse::ReuseB, reuse::TouchBook>(),
+                shipped::ix_row::<reuse::ReuseB, reuse::SetLimits>(),
+                shipped::ix_row::<reuse::ReuseB, reuse::TouchVault>(),
+            ],
+            accts: vec![acct::<reuse::Vault>(), acct::<reuse::Limits>(), acct::<reuse::Book>()],
+            example: false,
+        },
+        Prog {
+            name: "reuse_c",
+            id: reuse::ReuseC::ID,
+            gen: gen_of::<reuse::ReuseC>,
+            ixs: vec![shipped::ix_row::<reuse::ReuseC, reuse::SetLimits>(), shipped::ix_row::<reuse::ReuseC, reuse::TouchBook>()],
+            accts: vec![acct::<reuse::Vault>(), acct::<reuse::Limits>(), acct::<reuse::Book>()],
+            example: false,
+        },
+        Prog {
             name: "hxwide",
             id: sets::wide::HxWide::ID,
             gen: gen_of::<sets::wide::HxWide>,
@@ -161,6 +197,9 @@ shipped::dummy_struct!(sets::EmptyClientAccounts {});
 shipped::dummy_struct!(sets::SetNestedClientAccounts { head, pair, boxed, one, tup, none, bx });
 shipped::dummy_struct!(sets::SetInitClientAccounts { funder, owner, sys, zc, un, existing, seeded, borsh, val });
 shipped::dummy_struct!(sets::SetOneClientAccounts { only });
+shipped::dummy_struct!(reuse::TouchVaultClientAccounts { owner, vault });
+shipped::dummy_struct!(reuse::TouchLimitsClientAccounts { owner, limits, other_limits });
+shipped::dummy_struct!(reuse::TouchBookClientAccounts { book, limits });
 shipped::dummy_struct!(sets::SetManyMidClientAccounts { vaults, authority });
 shipped::dummy_struct!(sets::SetRestMidClientAccounts { head, others, tail });
 shipped::dummy_struct!(sets::SetTwoManyClientAccounts { head, pair, others });
@@ -172,6 +211,24 @@ shipped::dummy_struct!(sets::SetVariantsClientAccounts { a, b, c, d, e, f, g, h 
 shipped::dummy_struct!(sets::SetVariants2ClientAccounts { x, y, z });
 shipped::dummy_struct!(sets::wide::WideAClientAccounts { who, acct });
 use shipped::Dummy;
+
+/// `program_accounts` entries (namespace, source) anywhere in the definition's JSON.
+fn collect_account_refs(v: &serde_json::Value, out: &mut Vec<(Option<String>, String)>) {
+    match v {
+        serde_json::Value::Object(m) => {
+            for (k, x) in m {
+                if k == "program_accounts" {
+                    for r in x.as_array().cloned().unwrap_or_default() {
+                        out.push((r["namespace"].as_str().map(|s| s.to_string()), r["source"].as_str().unwrap_or("").to_string()));
+                    }
+                }
+                collect_account_refs(x, out);
+            }
+        }
+        serde_json::Value::Array(a) => a.iter().for_each(|x| collect_account_refs(x, out)),
+        _ => {}
+    }
+}
 
 /// Namespaces an IDL refers to (`"namespace": "<name>"` anywhere in the JSON).
 fn referenced_namespaces(v: &serde_json::Value, out: &mut BTreeSet<String>) {
@@ -418,7 +475,68 @@ fn exec(env: &mut Env, rec: &mut Recorder, line: &str) -> String {
             if !all_ix || !all_ac || p.ixs.len() != idl.instructions.len() {
                 rec.fail("harness_table_incomplete", &format!("{line}: idl ix {:?} accts {:?}", idl.instructions.keys().collect::<Vec<_>>(), idl.accounts.keys().collect::<Vec<_>>()));
             }
-            format!("ok {} {}", p.ixs.len(), idl.accounts.keys().filter(|k| p.accts.iter().any(|r| &r.0 == *k)).count())
+            // the converse: every account type the program's account sets use is described in `accounts`
+            for (src, _) in &p.accts {
+                if !idl.accounts.contains_key(src) {
+                    rec.fail("account_type_missing_from_idl_accounts", &format!("{line}: {src} (idl accounts {:?})", idl.accounts.keys().collect::<Vec<_>>()));
+                }
+            }
+            format!("ok {} {}", p.ixs.len(), p.accts.len())
+        }
+        ("accrefs", 2) => {
+            // every `program_accounts` reference of every single-account slot resolves: in this definition's
+            // `accounts` (own namespace) or in the referenced program's IDL, and names a type with a
+            // runtime discriminant the table knows
+            let Some(p) = a(1).and_then(|n| env.prog(n)) else { return "bad-op".into() };
+            let idl = &env.idls[p.name];
+            let mut refs = vec![];
+            collect_account_refs(&serde_json::to_value(idl).unwrap(), &mut refs);
+            let mut bad = 0;
+            for (ns, src) in &refs {
+                let ok = match ns {
+                    None => idl.accounts.get(src).is_some_and(|ac| p.accts.iter().any(|(s, d)| s == src && *d == ac.discriminant)),
+                    Some(ns) => env.idls.values().any(|o| &o.metadata.crate_metadata.name == ns && o.accounts.contains_key(src)) || idl.accounts.contains_key(src),
+                };
+                if !ok {
+                    bad += 1;
+                    rec.fail("dangling_program_account_reference", &format!("{line}: {ns:?} {src}"));
+                }
+            }
+            if bad == 0 { "ok".into() } else { "err:dangling".into() }
+        }
+        ("sameidl", 3) => {
+            // generation is order-independent: programs built from the same items in a different
+            // instruction-set order describe every shared item identically
+            let (Some(p), Some(q)) = (a(1).and_then(|n| env.prog(n)), a(2).and_then(|n| env.prog(n))) else { return "bad-op".into() };
+            let (x, y) = (serde_json::to_value(&env.idls[p.name]).unwrap(), serde_json::to_value(&env.idls[q.name]).unwrap());
+            let mut diffs = vec![];
+            for table in ["instructions", "account_sets", "accounts", "types", "external_types"] {
+                let (tx, ty) = (x[table].as_object().cloned().unwrap_or_default(), y[table].as_object().cloned().unwrap_or_default());
+                for (k, v) in &tx {
+                    match ty.get(k) {
+                        Some(w) if w != v => diffs.push(format!("{table}/{k}")),
+                        _ => {}
+                    }
+                }
+                // an item both programs use must be in the same table of both
+                let used = |idl: &serde_json::Value, k: &str| serde_json::to_string(idl).unwrap().contains(&format!("\"{k}\""));
+                for k in tx.keys() {
+                    if !ty.contains_key(k) && used(&y, k) {
+                        diffs.push(format!("{table}/{k} missing in {}", q.name));
+                    }
+                }
+                for k in ty.keys() {
+                    if !tx.contains_key(k) && used(&x, k) {
+                        diffs.push(format!("{table}/{k} missing in {}", p.name));
+                    }
+                }
+            }
+            if diffs.is_empty() {
+                "ok".into()
+            } else {
+                rec.fail("idl_generation_depends_on_registration_order", &format!("{line}: {diffs:?}"));
+                "err:order-dependent".into()
+            }
         }
         ("disc", 5) => {
             let (Some(p), Some(kind), Some(source), Some(h)) = (a(1).and_then(|n| env.prog(n)), a(2), a(3), a(4)) else { return "bad-op".into() };
@@ -773,6 +891,13 @@ pub fn run(args: &Args) {
         go(&mut env, &mut rec, format!("verify {pn}"));
         go(&mut env, &mut rec, format!("verify-strict {pn}"));
         go(&mut env, &mut rec, format!("count {pn} {} {}", idl.instructions.len(), idl.accounts.len()));
+        go(&mut env, &mut rec, format!("accrefs {pn}"));
+        match pn {
+            "reuse_a" => go(&mut env, &mut rec, "sameidl reuse_a reuse_b".to_string()),
+            "reuse_b" => go(&mut env, &mut rec, "sameidl reuse_b reuse_c".to_string()),
+            "reuse_c" => go(&mut env, &mut rec, "sameidl reuse_c reuse_a".to_string()),
+            _ => {}
+        }
         for (source, ix) in &idl.instructions {
             go(&mut env, &mut rec, format!("disc {pn} ix {source} {}", hex(&ix.discriminant)));
             let set = sx::show_idl_set(&idl, &ix.definition.account_set, 0);
